@@ -203,6 +203,9 @@ func (c *concretiser) reqDirectives(rq *Rq) []directive {
 	if rq.Sie != None {
 		ds = append(ds, directive{"stale-if-error", c.numPad(rq.Sie, pad), true})
 	}
+	if len(ds) > 0 && (rq.Sp == 4 || rq.Sp == 6) && c.rnd.Intn(2) == 0 {
+		ds = append(ds, directive{name: "no-transform"}) // speaks to transforming intermediaries only
+	}
 	return ds
 }
 
@@ -244,7 +247,35 @@ func (c *concretiser) respDirectives(a *Ans) []directive {
 	if len(ds) == 0 {
 		ds = append(ds, directive{name: "x-none"}) // Cache-Control present without known directives
 	}
+	if a.Sp == 4 || a.Sp == 6 {
+		ds = append(ds, c.sharedCacheNoise(a.Ma)...)
+	}
 	return ds
+}
+
+// sharedCacheNoise: directives that only speak to shared caches (RFC 9111 5.2.2.7, 5.2.2.8, 5.2.2.10) or to
+// transforming intermediaries (5.2.2.6). A private cache has to act as if they were not there; s-maxage is given
+// a value that contradicts the lifetime the response really has.
+func (c *concretiser) sharedCacheNoise(ma int) []directive {
+	contrast := "86400"
+	if ma == None || ma > 60 {
+		contrast = "0"
+	}
+	all := []directive{{"s-maxage", contrast, true}, {name: "private"}, {name: "proxy-revalidate"}, {name: "no-transform"}}
+	switch c.rnd.Intn(6) {
+	case 0:
+		return all[:1]
+	case 1:
+		return all[1:2]
+	case 2:
+		return all[2:3]
+	case 3:
+		return []directive{all[0], all[2]}
+	case 4:
+		return []directive{all[3], all[0]}
+	default:
+		return all
+	}
 }
 
 // URL spellings of URI class u; all are equivalent under RFC 3986 6.2.2-6.2.3.
